@@ -287,7 +287,8 @@ pub fn register(app: &mut App) {
     app.insert_resource(ch)
         .init_resource::<Observed>()
         .init_resource::<DisconnectSeen>()
-        .add_systems(Update, read_disconnect_requests);
+        // (read where a messaging backend reads them: in its send set of `PostUpdate`)
+        .add_systems(PostUpdate, read_disconnect_requests.in_set(ServerSet::SendPackets));
     app.add_systems(
         Update,
         (
